@@ -2,7 +2,9 @@ package props
 
 import (
 	"fmt"
+	"go/types"
 	"math"
+	"strings"
 
 	"verif/checker/internal/absint"
 	"verif/checker/internal/core"
@@ -44,43 +46,102 @@ func ruleSizedTable(c *core.Ctx) {
 		return
 	}
 	worlds := 0
-	for _, hasMin := range []bool{false, true} {
-		for _, hasMax := range []bool{false, true} {
-			type outT struct {
-				res        absint.Tuple
-				aMin, aMax *absint.Atom
-				ivMin      [2]float64
-				ivMax      [2]float64
-				opMin      [2]bool
-				opMax      [2]bool
+	// forms of one side: absent; inclusive bound (integral / fractional); numeric exclusive bound alone (integral / fractional)
+	forms := []string{"absent", "int", "frac", "xint", "xfrac"}
+	type side struct {
+		a    *absint.Atom
+		iv   [2]float64
+		op   [2]bool
+		form string
+	}
+	// adm is the range, over the cell, of the least (lower side) / greatest (upper side) integer the bound admits
+	adm := func(sd *side, lower bool) (float64, float64, bool) {
+		lo, hi := sd.iv[0], sd.iv[1]
+		isInt := func(x float64) bool { return x == math.Floor(x) }
+		switch sd.form {
+		case "int", "xint":
+			l, h := cellLow(sd.iv, sd.op), cellHigh(sd.iv, sd.op)
+			if !isInt(lo) && !math.IsInf(lo, 0) {
+				l = math.Ceil(lo)
 			}
-			runs, complete := absint.Explore(c.Prog, 20000, nil, func(m *absint.Machine) any {
+			if !isInt(hi) && !math.IsInf(hi, 0) {
+				h = math.Floor(hi)
+			}
+			if sd.form == "xint" {
+				if lower {
+					l, h = l+1, h+1
+				} else {
+					l, h = l-1, h-1
+				}
+			}
+			return l, h, l <= h
+		}
+		// fractional: x is not an integer, so `v >= x`, `v > x` both mean v >= ceil(x); `v <= x`, `v < x` both mean v <= floor(x)
+		if lo == hi && isInt(lo) {
+			return 0, 0, false
+		}
+		var l, h float64
+		if lower {
+			l, h = math.Ceil(lo), math.Ceil(hi)
+			if isInt(lo) {
+				l = lo + 1
+			}
+		} else {
+			l, h = math.Floor(lo), math.Floor(hi)
+			if isInt(hi) {
+				h = hi - 1
+			}
+		}
+		return l, h, l <= h
+	}
+	for _, fMin := range forms {
+		for _, fMax := range forms {
+			hasMin, hasMax := fMin != "absent", fMax != "absent"
+			if c.Tier != "thorough" && fMin[0] == 'x' && fMax[0] == 'x' && fMin != fMax {
+				continue
+			}
+			type outT struct {
+				res      absint.Tuple
+				min, max side
+			}
+			runs, complete := absint.Explore(c.Prog, 60000, nil, func(m *absint.Machine) any {
 				o := &outT{}
-				mk := func(present bool, name string) (absint.Value, *absint.Atom) {
-					if !present {
-						return absint.Ptr{}, nil
+				o.min.form, o.max.form = fMin, fMax
+				// returns (inclusive pointer, exclusive pointer, atom)
+				mk := func(form, incl, excl string) (absint.Value, absint.Value, *absint.Atom) {
+					if form == "absent" {
+						return absint.Ptr{}, absint.Ptr{}, nil
+					}
+					name := incl
+					if form[0] == 'x' {
+						name = excl
 					}
 					a := m.NewAtom("Float", name)
 					a.Facts["integral"] = "yes"
-					return m.NewPtr(absint.Num{A: a, IsFloat: true}, name), a
+					if strings.HasSuffix(form, "frac") {
+						a.Facts["integral"] = "no"
+					}
+					n := absint.Num{A: a, IsFloat: true}
+					if form[0] == 'x' {
+						return absint.Ptr{}, m.NewPtr(absint.Iface{T: types.Typ[types.Float64], V: n}, name), a
+					}
+					return m.NewPtr(n, name), absint.Ptr{}, a
 				}
-				var pMin, pMax absint.Value
-				pMin, o.aMin = mk(hasMin, "minimum")
-				pMax, o.aMax = mk(hasMax, "maximum")
-				r := m.CallFunction(fn, []absint.Value{pMin, pMax, absint.Ptr{}, absint.Ptr{}}, nil)
+				var pMin, pMax, xMin, xMax absint.Value
+				pMin, xMin, o.min.a = mk(fMin, "minimum", "exclusiveMinimum")
+				pMax, xMax, o.max.a = mk(fMax, "maximum", "exclusiveMaximum")
+				r := m.CallFunction(fn, []absint.Value{pMin, pMax, xMin, xMax}, nil)
 				o.res = r.(absint.Tuple)
-				if o.aMin != nil {
-					lo, hi, lop, hop := m.Interval(o.aMin)
-					o.ivMin, o.opMin = [2]float64{lo, hi}, [2]bool{lop, hop}
-				}
-				if o.aMax != nil {
-					lo, hi, lop, hop := m.Interval(o.aMax)
-					o.ivMax, o.opMax = [2]float64{lo, hi}, [2]bool{lop, hop}
+				for _, sd := range []*side{&o.min, &o.max} {
+					if sd.a != nil {
+						lo, hi, lop, hop := m.Interval(sd.a)
+						sd.iv, sd.op = [2]float64{lo, hi}, [2]bool{lop, hop}
+					}
 				}
 				return o
 			})
 			if !complete {
-				c.Undecided("B-SIZED", "pkg/codegen.getMinIntType", fmt.Sprintf("min=%v max=%v", hasMin, hasMax), "", "fork budget exceeded")
+				c.Undecided("B-SIZED", "pkg/codegen.getMinIntType", fmt.Sprintf("min=%v max=%v", fMin, fMax), "", "fork budget exceeded")
 				continue
 			}
 			for _, run := range runs {
@@ -89,12 +150,24 @@ func ruleSizedTable(c *core.Ctx) {
 					continue
 				}
 				o := run.Out.(*outT)
-				// skip infeasible cells: minimum above maximum
-				if o.aMin != nil && o.aMax != nil && cellLow(o.ivMin, o.opMin) > cellHigh(o.ivMax, o.opMax) {
+				var minLo, minHi, maxLo, maxHi float64
+				ok1, ok2 := true, true
+				if hasMin {
+					minLo, minHi, ok1 = adm(&o.min, true)
+				}
+				if hasMax {
+					maxLo, maxHi, ok2 = adm(&o.max, false)
+				}
+				if !ok1 || !ok2 {
+					c.Counts["B-SIZED:cells_without_a_value_of_the_stated_kind"]++
+					continue
+				}
+				// skip infeasible cells: nothing admitted
+				if hasMin && hasMax && minLo > maxHi {
 					continue
 				}
 				// bounds beyond the 64-bit limits admit values no Go integer type holds, with or without the flag: not part of the claim
-				if o.aMin != nil && math.IsInf(cellLow(o.ivMin, o.opMin), -1) || o.aMax != nil && math.IsInf(cellHigh(o.ivMax, o.opMax), 1) {
+				if hasMin && (math.IsInf(minLo, 0) || minLo < math.MinInt64) || hasMax && (math.IsInf(maxHi, 0) || maxHi > math.MaxUint64) {
 					c.Counts["B-SIZED:cells_beyond_64_bits_skipped"]++
 					continue
 				}
@@ -103,34 +176,37 @@ func ruleSizedTable(c *core.Ctx) {
 				rmMin, _ := o.res[1].(bool)
 				rmMax, _ := o.res[2].(bool)
 				T := typeByName(tn)
-				desc := fmt.Sprintf("minimum in %s, maximum in %s -> %s removeMin=%v removeMax=%v", cellStr(hasMin, o.ivMin, o.opMin), cellStr(hasMax, o.ivMax, o.opMax), tn, rmMin, rmMax)
-				key := "cell " + cellStr(hasMin, o.ivMin, o.opMin) + " / " + cellStr(hasMax, o.ivMax, o.opMax)
+				cs := func(sd *side) string {
+					if sd.a == nil {
+						return "absent"
+					}
+					return sd.form + " " + cellStr(true, sd.iv, sd.op)
+				}
+				desc := fmt.Sprintf("lower bound %s, upper bound %s -> %s removeMin=%v removeMax=%v", cs(&o.min), cs(&o.max), tn, rmMin, rmMax)
+				key := "cell " + cs(&o.min) + " / " + cs(&o.max)
 				if T == nil {
 					c.Fail("B-SIZED", "pkg/codegen.getMinIntType", "unknown type name "+tn, "", desc, nil)
 					continue
 				}
 				var problems []string
-				// representable integers of the cells
-				minLo, minHi := cellLow(o.ivMin, o.opMin), cellHigh(o.ivMin, o.opMin)
-				maxLo, maxHi := cellLow(o.ivMax, o.opMax), cellHigh(o.ivMax, o.opMax)
 				if hasMin {
 					if minLo < T.min {
-						problems = append(problems, fmt.Sprintf("a minimum of %v is possible in this cell but %s starts at %v: valid values below the type's range cannot be decoded", minLo, tn, T.min))
+						problems = append(problems, fmt.Sprintf("the smallest admitted integer can be %v in this cell but %s starts at %v: valid values below the type's range cannot be decoded", minLo, tn, T.min))
 					}
 				} else if T.signed && T.width != 64 || !T.signed {
 					problems = append(problems, "no lower bound is stated, so every negative integer is valid, but the chosen type is "+tn+" (must be int64)")
 				}
 				if hasMax {
 					if maxHi > T.max {
-						problems = append(problems, fmt.Sprintf("a maximum of %v is possible in this cell but %s ends at %v: valid values above the type's range cannot be decoded", maxHi, tn, T.max))
+						problems = append(problems, fmt.Sprintf("the largest admitted integer can be %v in this cell but %s ends at %v: valid values above the type's range cannot be decoded", maxHi, tn, T.max))
 					}
 				} else if T.width != 64 {
 					problems = append(problems, "no upper bound is stated, so arbitrarily large integers are valid, but the chosen type is "+tn+" (must be 64 bits wide)")
 				}
 				// signedness
 				wantUnsigned := hasMin && minLo >= 0
-				if wantUnsigned != !T.signed && len(problems) == 0 {
-					problems = append(problems, fmt.Sprintf("lower bound known non-negative=%v but the chosen type %s is signed=%v (not the narrowest signed-or-unsigned type)", wantUnsigned, tn, T.signed))
+				if wantUnsigned != !T.signed && len(problems) == 0 && !(hasMin && minHi >= 0 && minLo < 0) {
+					problems = append(problems, fmt.Sprintf("smallest admitted integer known non-negative=%v but the chosen type %s is signed=%v (not the narrowest signed-or-unsigned type)", wantUnsigned, tn, T.signed))
 				}
 				// narrowest: the next narrower type of the same signedness must not fit
 				if len(problems) == 0 && hasMin && hasMax {
@@ -145,14 +221,14 @@ func ruleSizedTable(c *core.Ctx) {
 				}
 				// removal flags
 				if rmMin && hasMin && !(minLo == T.min && minHi == T.min) {
-					problems = append(problems, fmt.Sprintf("the minimum check is dropped although the minimum (cell %s) is not known to equal the type's lower limit %v", cellStr(true, o.ivMin, o.opMin), T.min))
+					problems = append(problems, fmt.Sprintf("the lower-bound check is dropped although the smallest admitted integer (%v..%v over the cell) is not known to equal the type's lower limit %v: with the flag smaller values are accepted", minLo, minHi, T.min))
 				}
 				if rmMax && hasMax && !(maxLo == T.max && maxHi == T.max) {
-					problems = append(problems, fmt.Sprintf("the maximum check is dropped although the maximum (cell %s) is not known to equal the type's upper limit %v", cellStr(true, o.ivMax, o.opMax), T.max))
+					problems = append(problems, fmt.Sprintf("the upper-bound check is dropped although the largest admitted integer (%v..%v over the cell) is not known to equal the type's upper limit %v: with the flag larger values are accepted", maxLo, maxHi, T.max))
 				}
 				if len(problems) == 0 {
 					c.Pass("B-SIZED", "pkg/codegen.getMinIntType", key, desc)
-					if worlds%23 == 1 {
+					if worlds%97 == 1 {
 						c.Sample(map[string]any{"rule": "B-SIZED", "world": desc})
 					}
 				} else {
